@@ -234,11 +234,56 @@ def run(tier: str, seed: int) -> int:
                     res.spec_failures.append({"op": req["op"], "request": req, "impl_output": impl["ok"],
                                               "what": "Cache.check (Spec.C10) is false on the file the implementation wrote"})
     from_envelope_cases(res, drv, tier, rng)
+    cli_cases(res, drv, tier)
     drv.close()
     res.exhaustive = True
     res.notes["exhaustive_scope"] = ("every eb in 1..%d x every residue class x {first, later slot}; the remaining streams are sampled"
                                      % (64 if tier == "quick" else 512))
     return finish(res, st, RULE, NOTE)
+
+
+def cli_cases(res, drv, tier):
+    """cache_create from_payloads / merge through the real command line: --eb-size as written, URI,file pairs with commas in neither part"""
+    import tempfile
+    from concurrent.futures import ThreadPoolExecutor
+    slots = [("#app", payload(40, 1)), ("http://x/y?a=b", payload(17, 2)), ("z", b"")]
+    cases = [("from_payloads", eb) for eb in (1, 4, 8, 10, 16, 100, 256, 4096)] + [("merge", eb) for eb in (1, 8, 10, 100)] + [("default", None)]
+    with tempfile.TemporaryDirectory(prefix="verif_c10cli_") as d:
+        inputs = []
+        for i, (u, pdata) in enumerate(slots):
+            f = os.path.join(d, f"p{i}.bin")
+            open(f, "wb").write(pdata)
+            inputs += ["--input", f"{u},{f}"]
+        a, b = os.path.join(d, "a.bin"), os.path.join(d, "b.bin")
+        ma = drv.call({"op": "cache.from_payloads", "eb": 8, "slots": [[u, pdata.hex()] for u, pdata in slots[:2]]})["ok"]
+        mb = drv.call({"op": "cache.from_payloads", "eb": 16, "slots": [[u, pdata.hex()] for u, pdata in slots[2:]]})["ok"]
+        open(a, "wb").write(bytes.fromhex(ma))
+        open(b, "wb").write(bytes.fromhex(mb))
+
+        def one(k):
+            sub, eb = cases[k]
+            out = os.path.join(d, f"out{k}.bin")
+            common.make_stale(out)
+            if sub == "merge":
+                args = ["cache_create", "merge", "--input", a, "--input", b, "--output-file", out, "--eb-size", str(eb)]
+            else:
+                args = ["cache_create", "from_payloads"] + inputs + ["--output-file", out] + (["--eb-size", str(eb)] if eb is not None else [])
+            rc, log = common.run_cli(args, d)
+            return rc, log, (open(out, "rb").read() if common.was_written(out) else None)
+        with ThreadPoolExecutor(max_workers=12) as ex:
+            outs = list(ex.map(one, range(len(cases))))
+    for (sub, eb), (rc, log, data) in zip(cases, outs):
+        res.case(["cli-cache", sub, eb], nontrivial=True)
+        res.count("cli:" + sub)
+        eff = 16 if eb is None else eb       # documented default erase-block size
+        jslots = [[u, pdata.hex()] for u, pdata in slots]
+        if rc != 0 or data is None:
+            res.spec_failures.append({"cli": "cache_create " + sub, "eb": eb, "what": f"the command line failed (exit {rc})", "log": log[-300:]})
+            continue
+        c = drv.call({"op": "cache.check", "eb": eff, "slots": jslots, "out": data.hex()})["ok"]
+        if not c:
+            res.spec_failures.append({"cli": "cache_create " + sub, "eb": eb, "output": data.hex()[:400],
+                                      "what": f"the file written through the command line does not satisfy Spec.C10 for erase-block size {eff}"})
 
 
 def from_envelope_cases(res, drv, tier, rng):
